@@ -141,7 +141,7 @@ def match(ctx, rule, construct, found, specs, names=None, body=None, mod=None, n
             allowed |= _PARTNER.get(t, set())
         extra = fv - allowed
         # numeric constants that differ are a semantic change, not new vocabulary
-        extra = {t for t in extra if not _is_number(t)}
+        extra = {t for t in extra if not _is_number(t) and t not in ("Not", "USub")}      # an inserted negation is a change of meaning, not a new idiom
         if not extra:
             ctx.ob(rule, construct, False, found=ast.unparse(e), required=req, mod=mod, node=node or found, sig=sig or "shape")
             return False
